@@ -3,6 +3,7 @@ package disk
 import (
 	"encoding/hex"
 	"fmt"
+	"net"
 	"strings"
 	"syscall"
 	"time"
@@ -547,6 +548,28 @@ func runC18Tickets(c *harness.Ctx) {
 		// (the ticket packet can be lost when the connection is torn down first)
 		c.Feature("prefix-left-no-ticket")
 		c.Reached = true
+		return
+	}
+	if t.Draw("many-bridges", 40) == 39 {
+		// a long history: the client has talked to a few hundred different
+		// bridges, each of which left a ticket (the store grows with every one);
+		// then it restarts.  No fault at all.
+		n := 230 + t.Draw("many-bridges.n", 40)
+		for i := 0; i < n; i++ {
+			if !w.connect(ssConnectOpts{issueTicket: true, peer: &net.TCPAddr{IP: net.IPv4(10, 1, byte(i/250), byte(1+i%250)), Port: 443}}) {
+				return
+			}
+		}
+		c.Info["bridges"], c.Info["ticket_file"] = n, describeSS(w.d)
+		if err := w.newFactory(); err != nil {
+			c.Violate("C18/ticket-store-blocks-startup", "after connections to %d different bridges (ticket file %s) and no fault at all, the next ClientFactory fails with %q", n, describeSS(w.d), err)
+			return
+		}
+		if !w.connect(ssConnectOpts{}) {
+			return
+		}
+		c.Reached, c.Nontrivial = true, true
+		c.Feature("tickets-of-hundreds-of-bridges")
 		return
 	}
 	if npre > 0 && t.Draw("startfaults", 3) == 2 {
